@@ -682,15 +682,17 @@ def r_buffer(ctx: Ctx, rule: str):
         if stream is None and c.ast.args:
             stream = c.ast.args[0]
         if stream is None:
+            # ControlParser(**parser_kwargs) with a dictionary display built in the same frame (this function, or a helper spliced in)
+            csc = ctx.an.scope(c.func)
             for k in c.ast.keywords:
                 if k.arg is None and isinstance(k.value, ast.Name):
-                    for h in sc.defs.get(k.value.id, []):
-                        d = h[1] if h[0] == "assign" else None
+                    for h in csc.defs.get(k.value.id, []):
+                        d = h[1] if h[0] == "assign" else (h[2] if h[0] == "ann" else None)
                         if isinstance(d, ast.Dict):
                             for kk, vv in zip(d.keys, d.values):
-                                if isinstance(kk, ast.Constant) and kk.value == "stream":
+                                if kk is not None and ctx.vals.const(c.func, kk) is not None and ctx.vals.const(c.func, kk).value == "stream":
                                     stream = vv
-        rep.ob(rule, "the parser's stream is this session's response buffer", stream is not None and ctx.eff.paths(hs).of(stream) == "self._response_buffer", node=c,
+        rep.ob(rule, "the parser's stream is this session's response buffer", stream is not None and ctx.path_at(c, stream) == "self._response_buffer", node=c,
                detail=f"stream <- {ast.unparse(stream) if stream is not None else None}")
     f = sess.methods.get("listen")
     g = ctx.an.cfg(f)
@@ -800,11 +802,22 @@ def r_reply_forms(ctx: Ctx, rule: str):
         sc = ctx.an.scope(f)
         g = ctx.an.cfg(f)
         parents: Dict[int, ast.AST] = {}
-        for node in sc._own_nodes():
-            for ch in ast.iter_child_nodes(node):
-                parents[id(ch)] = node
+        frames_seen: Set[str] = set()
+
+        def add_parents(fn_: FuncInfo) -> None:
+            # (the call may sit in a coroutine helper spliced into f: its own statements are its context)
+            if fn_.qual in frames_seen:
+                return
+            frames_seen.add(fn_.qual)
+            for node in ctx.an.scope(fn_)._own_nodes():
+                for ch in ast.iter_child_nodes(node):
+                    parents[id(ch)] = node
+
+        add_parents(f)
         for c in ctx.distinct_sites(ctx.nodes(f, lambda n: ctx.is_call_to(n, "return_or_exception"))):
             n += 1
+            add_parents(c.func)
+            sc = ctx.an.scope(c.func)
             first = ctx.vals.resolve(c.func, c.ast.args[0]) if c.ast.args else None
             is_getter = isinstance(first, ast.Attribute) and first.attr == "fget"
             # find the awaited expression and where it goes
@@ -843,7 +856,7 @@ def r_reply_forms(ctx: Ctx, rule: str):
                 return x is aw if var == "<awaited>" else (isinstance(x, ast.Name) and x.id == var)
 
             if var is not None:
-                writes = [m for m in ctx.nodes(f, lambda m: any(e.kind == "write" and e.path == "self._response_buffer" for e in ctx.eff.of_node(m)))
+                writes = [m for m in ctx.nodes(f, lambda m: m.func is c.func and any(e.kind == "write" and e.path == "self._response_buffer" for e in ctx.eff.of_node(m)))
                           if any(is_val(x) for x in ast.walk(m.ast))]
                 if not writes:
                     # the value may be handed to a helper of the session that writes the reply
@@ -887,7 +900,7 @@ def r_reply_forms(ctx: Ctx, rule: str):
                        ctx.eff.paths(f).of(written.func.value) == "self._response_buffer", node=c)
             if written is not None and written.args:
                 arg = written.args[0]
-                form = reply_form(arg, var, aw)
+                form = reply_form(arg, var, aw, ctx)
                 want = "str" if is_getter else "ok-or-str"
                 ok = form == want or (is_getter and form == "ok-or-str")
                 rep.ob(rule + "r", f"the reply has the form {'str(result)' if is_getter else 'ok if result is None else str(result)'}", ok, node=c, detail=f"written: {ast.unparse(arg)[:80]} ({form})")
@@ -899,9 +912,18 @@ def r_reply_forms(ctx: Ctx, rule: str):
     rep.floor(rule + "r", "invocations of pool members (through return_or_exception or direct)", n + direct, 3)
 
 
-def reply_form(arg: ast.AST, var: Optional[str], aw: Optional[ast.AST]) -> str:
+def reply_form(arg: ast.AST, var: Optional[str], aw: Optional[ast.AST], ctx: Optional[Ctx] = None) -> str:
     def is_val(x: ast.AST) -> bool:
         return (var is not None and isinstance(x, ast.Name) and x.id == var) or (aw is not None and x is aw)
+
+    if ctx is not None and isinstance(arg, ast.Call) and id(arg) in ctx.an.spliced_at and len(arg.args) + len(arg.keywords) == 1:
+        # self._format_output(value): a helper that only computes the text - judged by its single `return <expr>` over its parameter
+        t = ctx.an.spliced_at[id(arg)]
+        passed = arg.args[0] if arg.args else arg.keywords[0].value
+        body = [st for st in t.node.body if not (isinstance(st, ast.Expr) and isinstance(st.value, ast.Constant))]
+        params = [p_ for p_ in t.param_names() if p_ not in ("self", "cls")]
+        if is_val(passed) and len(body) == 1 and isinstance(body[0], ast.Return) and body[0].value is not None and len(params) == 1:
+            return reply_form(body[0].value, params[0], None, ctx)
 
     def is_str_of_val(x: ast.AST) -> bool:
         return isinstance(x, ast.Call) and isinstance(x.func, ast.Name) and x.func.id == "str" and len(x.args) == 1 and is_val(x.args[0])
@@ -1150,8 +1172,9 @@ def dict_defaults(ctx: Ctx, f: FuncInfo) -> Dict[object, DictDefault]:
     """`D.setdefault(K, V)` and its spelled-out form `if K not in D: D[K] = V`, by constant key K (all frames of f's CFG)"""
     out: Dict[object, DictDefault] = {}
     for n in ctx.distinct_sites(ctx.nodes(f, lambda n: n.op == "call" and isinstance(n.ast.func, ast.Attribute) and n.ast.func.attr == "setdefault" and len(n.ast.args) == 2
-                                          and isinstance(n.ast.args[0], ast.Constant))):
-        out[n.ast.args[0].value] = DictDefault(n, n.ast.args[0].value, n.ast.args[1])
+                                          and ctx.vals.const(n.func, n.ast.args[0]) is not None)):
+        k_ = ctx.vals.const(n.func, n.ast.args[0]).value  # a literal, or a module-level constant (NAME = "name")
+        out[k_] = DictDefault(n, k_, n.ast.args[1])
     for n in ctx.distinct_sites(ctx.nodes(f, lambda n: n.op == "assign" and isinstance(n.ast, ast.Assign) and len(n.ast.targets) == 1 and isinstance(n.ast.targets[0], ast.Subscript)
                                           and isinstance(n.ast.targets[0].slice, ast.Constant))):
         tgt = n.ast.targets[0]
@@ -1211,6 +1234,31 @@ def r_arg_mapping(ctx: Ctx, rule: str):
         return ("--{" + nm_txt + ".replace('_','-')}") in t or ("'--'+" + nm_txt + ".replace('_','-')") in t
 
     ok_long = long_name_in(f, pp + ".name")
+    if not ok_long:
+        # value-based: some string built in this function (or in a helper spliced into it) reads `--<parameter name with dashes>`
+        want_hole = pp + ".name.replace('_','-')"
+
+        def flat(fr, env, e: ast.AST) -> Optional[str]:
+            if isinstance(e, ast.JoinedStr):
+                out = ""
+                for v in e.values:
+                    if isinstance(v, ast.Constant):
+                        out += str(v.value)
+                    elif isinstance(v, ast.FormattedValue) and v.format_spec is None and v.conversion in (-1, 115):
+                        out += "{" + V.canon_call(fr, env, v.value).replace(" ", "").replace('"', "'") + "}"
+                    else:
+                        return None
+                return out
+            if isinstance(e, ast.BinOp) and isinstance(e.op, ast.Add) and isinstance(e.left, ast.Constant) and isinstance(e.left.value, str):
+                return e.left.value + "{" + V.canon_call(fr, env, e.right).replace(" ", "").replace('"', "'") + "}"
+            return None
+
+        for n_ in g.nodes:
+            if n_.ast is None or not n_.pred:
+                continue
+            for x in ast.walk(n_.ast):
+                if isinstance(x, (ast.JoinedStr, ast.BinOp)) and flat(n_.func, n_.env, x) == "--{" + want_hole + "}":
+                    ok_long = True
     for c in ctx.distinct_sites(ctx.nodes(f, lambda n: n.inlined is not None and n.benv is not None and n.op == "call")):
         for pn, (caller, arg, cenv) in c.benv.items():
             if V.canon_at(caller, cenv, arg).replace(" ", "") == pp + ".name" and long_name_in(c.inlined, pn):
